@@ -195,6 +195,8 @@ def hyp_run(
     if shrink:
         phases.append(Phase.shrink)
 
+    seen: list = []
+
     @hseed(derive_seed(ctx.seed, ctx.prop_id, name, ctx.shard))
     @settings(
         max_examples=max_examples,
@@ -208,7 +210,11 @@ def hyp_run(
     )
     @given(strategy)
     def _t(case):
-        check(case)
+        try:
+            check(case)
+        except Violation as v:
+            seen.append(v)
+            raise
 
     try:
         _t()
@@ -216,6 +222,14 @@ def hyp_run(
         ctx.record_violation(v)
         return False
     except hypothesis.errors.Flaky as e:  # type: ignore[attr-defined]
+        if seen:
+            # The oracle failed on the real code, but not again when Hypothesis re-ran the same case: the
+            # manifestation depends on something outside the case (e.g. the order in which a set of paths
+            # is iterated, which varies with the scratch directory name).  It is still an observed violation.
+            v = seen[0]
+            v.message = v.message + "  [observed once; did not recur on an immediate re-run of the same case: order- or state-dependent]"
+            ctx.record_violation(v)
+            return False
         raise HarnessError(f"{ctx.prop_id}/{name}: flaky check: {e}") from e
     except hypothesis.errors.FailedHealthCheck as e:
         raise HarnessError(f"{ctx.prop_id}/{name}: generator health check: {e}") from e
